@@ -579,7 +579,7 @@ func (cr *checkRun) report() int {
 			if i > 0 && keys[i-1] == k {
 				continue
 			}
-			if _, cont := e.conformPrepare(k, e.specs.contracts[k], 80); cont != nil {
+			if _, cont := e.conformPrepare(k, e.specs.contracts[k], 50); cont != nil {
 				jobs = append(jobs, cont)
 			}
 		}
